@@ -328,3 +328,56 @@ CONSTANTS
 INVARIANT Report
 CHECK_DEADLOCK FALSE
 '''
+
+
+# ------------------------------------------------------- suffix-filter worker
+def eligible_suffix(case):
+    return (case['kind'] == 'ftab' and case.get('filt') == 'SUFFIX' and case.get('n_jobs', 1) == 1
+            and case['meas'] in ('JACCARD', 'COSINE', 'DICE', 'OVERLAP')
+            and case['t'][1] <= (100 if case['meas'] == 'COSINE' else 1000) and case['tok'].get('rs', 1) == 1)
+
+
+def build_suffix(case, events, tables, tid):
+    """Hook events of one SuffixFilter._filter_tables_split run -> record for spec/TraceWorkersSuffix.tla."""
+    ltable, rtable = tables
+    starts = [e for e in events if e['ev'] == 'worker_start' and e.get('fn') == 'suffix_filter']
+    ends = [e for e in events if e['ev'] == 'worker_end' and e.get('fn') == 'suffix_filter']
+    if len(starts) != 1 or len(ends) != 1:
+        return None
+    toks = record.abstract_tables(case, ltable, rtable)
+    lkey, rkey = case.get('lkey', 'id'), case.get('rkey', 'id')
+    lkeys, rkeys = ltable[lkey].tolist(), rtable[rkey].tolist()
+    L = [toks[('L', i)] for i in range(len(lkeys)) if toks[('L', i)] is not None]
+    R = [toks[('R', i)] for i in range(len(rkeys)) if toks[('R', i)] is not None]
+    l_present = [lkeys[i] for i in range(len(lkeys)) if toks[('L', i)] is not None]
+    r_present = [rkeys[i] for i in range(len(rkeys)) if toks[('R', i)] is not None]
+    if [record.key_code(k) for k in starts[0]['l_keys']] != [record.key_code(k) for k in l_present]:
+        return None
+    oracle = record.make_tokenizer(case['tok'], return_set=True)
+    vocab = sorted({t for tab, attr in ((ltable, case.get('lattr', 's')), (rtable, case.get('rattr', 's')))
+                    for v in tab[attr].tolist() if not record.is_missing(v) for t in oracle.tokenize(v)})
+    ids = {t: i + 1 for i, t in enumerate(vocab)}
+    rec = {'tid': tid, 't': list(case['t']), 'L': L, 'R': R,
+           'ord': [[ids.get(t, 0), r] for t, r in starts[0].get('ordering', [])], 'events': [], 'rows': []}
+    for e in events:
+        if e['ev'] == 'filter_suffix':
+            rec['events'].append({'lp': int(e['l_prefix']), 'rp': int(e['r_prefix']), 'ln': int(e['l_n']),
+                                  'rn': int(e['r_n']), 'ot': int(e['ot']), 'dropped': int(bool(e['dropped']))})
+    lpos = {record.key_code(k): i for i, k in enumerate(l_present)}
+    rpos = {record.key_code(k): i for i, k in enumerate(r_present)}
+    for row in ends[0]['rows']:
+        rec['rows'].append([lpos.get(record.key_code(row[0]), -1), rpos.get(record.key_code(row[1]), -1)])
+    return ('SUF', case['meas'], bool(case.get('ae', 1))), rec
+
+
+CFG_SUF = '''SPECIFICATION TSpec
+CONSTANTS
+  NTok = 1
+  MaxL = 0
+  MaxR = 0
+  Meas = "%s"
+  AllowEmpty = %s
+  Sabotage = "none"
+INVARIANT Report
+CHECK_DEADLOCK FALSE
+'''
